@@ -8,6 +8,8 @@
 (*       ownM2M  : A.rel  = ManyToManyField(B)     -> table p_a_rel  (of p) *)
 (*       farM2M  : A.far  = ManyToManyField(r.C)   -> table p_a_far  (of p) *)
 (*   pq: D (custom table p_a_more), E (pq_e)                                *)
+(*       E.parent = ForeignKey('self'): a model referring to itself has no  *)
+(*       table besides its own and imposes no order on deletions            *)
 (*   r : C (r_c), F (r_f)                                                   *)
 (*       crossFK : F.a    = ForeignKey(p.A)        -> column in r_f         *)
 (*       crossM2M: F.many = ManyToManyField(p.A)   -> table r_f_many (of r) *)
